@@ -243,6 +243,13 @@ def run_case(case, res):
             # chained: reduce from the elevated (non-initial) state
             if rep == "frac":
                 U1, P1, W1 = lib.exact_curve(c)
+                # ... once on the very object that was elevated (anything it carries from the elevation is still there)
+                res.transition()
+                ol = lib.outcome(c.degree_decrease, t)
+                back = lib.exact_curve(c) if ol[0] == "ok" else None
+                if ol[0] != "ok" or back[0] != U or not lib.curve_pw(c).same(rb.denote(U, P, W, p)) or (W is None and back[1] != list(P)):
+                    res.violation("not_restored", f"U={U} P={P} W={W}: degree_increase({t}) then degree_decrease({t}) on the same object "
+                                  f"gave {ol[:2] if ol[0] != 'ok' else back}", op="reduce", api="live", rational=W is not None, tol="default")
                 orig = (U, list(P), None) if W is None else None
                 tols = ("default", "zero", "none") if W is None and P is gen else ("default",)
                 for tolname in tols:
